@@ -148,10 +148,10 @@ structure Recovered where
   ioCalls : Nat
   deriving Repr
 
-/-- `MultiRecordLog::open_with_prefs`. `failAt` = index of the first failing list/open/read
-    call (none: no failure); `order` = GC visiting order oracle. -/
-def recover (g : Geom) (img : Image) (policy : Policy) (order : List Bytes) (failAt : Option Nat) :
-    Except OpenErr Recovered :=
+/-- `open_with_prefs` up to (not including) its final GC pass: the log rebuilt by replaying the
+    image, the effects of preparing the directory, and the number of I/O calls made. -/
+def recoverPre (g : Geom) (img : Image) (policy : Policy) (failAt : Option Nat) :
+    Except OpenErr (Log × List Effect × Nat) :=
   let (img1, e0) := prepareImage g img
   match blocksOf g img1 1 with
   | ([], _) => .error .io      -- unreachable after `prepareImage` (first file has ≥ 1 block)
@@ -164,12 +164,20 @@ def recover (g : Geom) (img : Image) (policy : Policy) (order : List Bytes) (fai
         match replay [] (assemble { within := false, buf := [], attr := b0.file } evs) with
         | none => .error .corruption
         | some qs =>
-          let l : Log := { files := img1.map (·.1), cur := endPos.file,
-                           off := endPos.idx * g.B + endPos.cursor, queues := qs, policy := policy }
-          let (l', e1, _) := l.runGc g order
-          -- the GC pass may roll over into an existing next file: one more `open_file` call
-          let nOpen := (e1.filter fun e => match e with | .openFile _ => true | _ => false).length
-          if ioFails failAt io (io + nOpen) then .error .io
-          else .ok { log := l', effects := e0 ++ e1, ioCalls := io + nOpen }
+          .ok ({ files := img1.map (·.1), cur := endPos.file,
+                 off := endPos.idx * g.B + endPos.cursor, queues := qs, policy := policy }, e0, io)
+
+/-- `MultiRecordLog::open_with_prefs`. `failAt` = index of the first failing list/open/read
+    call (none: no failure); `order` = GC visiting order oracle. -/
+def recover (g : Geom) (img : Image) (policy : Policy) (order : List Bytes) (failAt : Option Nat) :
+    Except OpenErr Recovered :=
+  match recoverPre g img policy failAt with
+  | .error e => .error e
+  | .ok (l, e0, io) =>
+    let (l', e1, _) := l.runGc g order
+    -- the GC pass may roll over into an existing next file: one more `open_file` call
+    let nOpen := (e1.filter fun e => match e with | .openFile _ => true | _ => false).length
+    if ioFails failAt io (io + nOpen) then .error .io
+    else .ok { log := l', effects := e0 ++ e1, ioCalls := io + nOpen }
 
 end MRL
